@@ -20,7 +20,7 @@ ID = "C03"
 LEVEL = "exploration"
 
 FILES = (("", "x"), ("", "y"), ("sub", "z"))  # (directory under WD, name)
-NSPELL = 8
+NSPELL = 9
 
 
 def spell(k, wd, twd_rel, fdir, fname):
@@ -51,10 +51,17 @@ def spell(k, wd, twd_rel, fdir, fname):
         return f"../{base}/{from_wd}" if twd_rel == "" else f"../../{base}/{from_wd}"
     if k == 7:
         return rel.replace("/", "//", 1) if "/" in rel else ".//" + rel
+    if k == 8:
+        return rel + "/"  # a declared path may be written with a trailing slash (think of an output directory)
     raise AssertionError
 
 
+import collections
+import types
+
 SHAPES = {
+    "userdict": lambda ps: collections.UserDict({f"k{i}": p for i, p in enumerate(ps)}),
+    "mappingproxy": lambda ps: types.MappingProxyType({f"k{i}": [p] for i, p in enumerate(ps)}),
     "str": lambda ps: ps[0] if len(ps) == 1 else list(ps),
     "list": lambda ps: list(ps),
     "dict": lambda ps: {f"k{i}": p for i, p in enumerate(ps)},
@@ -211,7 +218,7 @@ def all_batch(acc, batch, offsets=range(NSPELL)):
                 tdefs.append(dict(name=f"T{i}", twd_rel=twd, relative_wd=[False, "dotted", False, True, "slashes"][(i + off) % 5],
                                   ins=[(j, next(cnt) % NSPELL) for j in range(3) if r[j] == "i"],
                                   outs=[(j, next(cnt) % NSPELL) for j in range(3) if r[j] == "o"],
-                                  shape=list(SHAPES)[(i + off) % len(SHAPES)]))
+                                  shape=[sh for sh in SHAPES][(i + off) % len(SHAPES)]))
             for order in itertools.permutations(range(n)):
                 case = dict(kind="all", tdefs=tdefs, order=order)
                 run_case(acc, wd, tdefs, order, dict(kind="all"), case)
